@@ -151,6 +151,7 @@ def gen_case(rng, quick=True):
         # declared edges among the big indices: a self-loop (equal values held by distinct int objects), a valid edge
         b0 = max(x for rows in (faces, cells) for r in rows for x in r)
         edges += [[b0, b0], [b0 - 1, b0], [nv, b0 - 2], [b0 - 2, 299]]
+        mode = "chords"      # (declared edges that are sides of no face: no connectivity script)
     if kind == "line":
         edges = [[i, i + 1] if rng.random() < 0.6 else [i + 1, i] for i in range(nv - 1)]
         if rng.random() < 0.3 and nv > 2:
